@@ -34,6 +34,9 @@ type semSpec struct {
 	Extra func(c *Ctx, sc *semCase, obs map[string]observation)
 	// PerRun is run after each execution of a source (independent oracles on the real observation).
 	PerRun func(c *Ctx, sc *semCase, src string, v semVerdict)
+	// Pre runs further machines before the generator; their cases (other "gen" values) go to Side.
+	Pre  func(c *Ctx, feed func(json.RawMessage)) error
+	Side map[string]func(c *Ctx, raw json.RawMessage)
 }
 
 type semRun struct {
@@ -64,6 +67,11 @@ func runSemSpec(c *Ctx, s *semSpec) error {
 	pool := newPool(12, run)
 	var err error
 	allExh := true
+	if s.Pre != nil {
+		if err = s.Pre(c, pool.feed); err != nil {
+			runs = nil
+		}
+	}
 	for _, r := range runs {
 		w := r.Workers
 		if w == 0 {
@@ -112,6 +120,15 @@ func semTraceCtx(c *Ctx, s *semSpec) error {
 }
 
 func semRunCase(c *Ctx, s *semSpec, raw json.RawMessage) {
+	if s.Side != nil {
+		var probe struct {
+			Gen string `json:"gen"`
+		}
+		if json.Unmarshal(raw, &probe) == nil && s.Side[probe.Gen] != nil {
+			s.Side[probe.Gen](c, raw)
+			return
+		}
+	}
 	var sc semCase
 	if err := json.Unmarshal(raw, &sc); err != nil {
 		c.Fail("harness:json", err.Error(), string(raw))
@@ -228,6 +245,8 @@ func init() {
 		Thorough: []semRun{{Cfg: "GenLayout.single.cfg", Workers: 12}, {Cfg: "GenLayout.random.cfg", Simulate: 6000, Depth: 200}},
 		Rule: "GenLayout.tla: 9 programs covering let / assignment / arithmetic, if chains, loops with break and continue, functions, hashes / arrays / indexes, block helpers, nested loops, logic and strings, contentFor / contentOf / partial, printed canonically as token lists; a layout chooses for every separator inside a tag one of {space, tab, newline, CR LF, two spaces, # line comment, nothing next to a tag delimiter}, for every boundary of two adjacent code tags one of {keep, merge with newline / semicolon / space} (which also puts statements directly after an opening or closing brace), and for every tag end whether a comment tag follows. Exhaustive: every layout differing from the canonical one in exactly one position (1.5k); seeded random layouts differing everywhere. TLC checks SameTokens (a layout changes nothing but separators, tag boundaries and comments). Real plush must render the canonical and the laid-out source to the model's output. distinct_nontrivial = distinct (program, layout) pairs.",
 		Shape: func(sc *semCase) string { return decodeChars(sc.Srcs["layout"]) },
+		Pre:   lexMachine,
+		Side:  map[string]func(*Ctx, json.RawMessage){"InsideLex": sideLex, "InsideLexW": sideLex},
 	})
 	registerSem(semSpec{
 		ID: "C05", Module: "GenFaults", CheckLog: true,
